@@ -399,6 +399,13 @@ func (x *Exec) realConst(r *big.Rat) Term {
 func (x *Exec) eval(st *State, e ast.Expr) Value {
 	// constants first
 	if tv, ok := x.pkg.TypesInfo.Types[e]; ok && tv.Value != nil {
+		if isFloat(tv.Type) && x.mode != "U" {
+			// R-mode reads constant expressions as the exact decimal/rational the source denotes
+			// (go/types rounds typed constants to float64; the difference is part of A-float)
+			if r, ok := x.exactConst(e); ok {
+				return sc(RatTerm(r))
+			}
+		}
 		if v, ok := x.constTerm(tv.Value, tv.Type); ok {
 			return v
 		}
@@ -980,4 +987,75 @@ func exprStr(fset *token.FileSet, e ast.Node) string {
 	var b strings.Builder
 	_ = printerFprint(&b, fset, e)
 	return b.String()
+}
+
+// exactConst evaluates a constant expression over exact rationals from the literal texts.
+func (x *Exec) exactConst(e ast.Expr) (*big.Rat, bool) {
+	switch e := e.(type) {
+	case *ast.ParenExpr:
+		return x.exactConst(e.X)
+	case *ast.BasicLit:
+		if e.Kind == token.INT || e.Kind == token.FLOAT {
+			r, ok := new(big.Rat).SetString(strings.ReplaceAll(e.Value, "_", ""))
+			return r, ok
+		}
+	case *ast.UnaryExpr:
+		if r, ok := x.exactConst(e.X); ok {
+			switch e.Op {
+			case token.SUB:
+				return new(big.Rat).Neg(r), true
+			case token.ADD:
+				return r, true
+			}
+		}
+	case *ast.BinaryExpr:
+		a, ok1 := x.exactConst(e.X)
+		b, ok2 := x.exactConst(e.Y)
+		if !ok1 || !ok2 {
+			return nil, false
+		}
+		// integer division of two integer-typed constants truncates: leave those to go/types
+		if tx, ok := x.pkg.TypesInfo.Types[e.X]; ok && tx.Type != nil {
+			if bt, ok := tx.Type.Underlying().(*types.Basic); ok && bt.Info()&types.IsInteger != 0 && e.Op == token.QUO {
+				if ty, ok := x.pkg.TypesInfo.Types[e.Y]; ok {
+					if by, ok := ty.Type.Underlying().(*types.Basic); ok && by.Info()&types.IsInteger != 0 {
+						return nil, false
+					}
+				}
+			}
+		}
+		switch e.Op {
+		case token.ADD:
+			return new(big.Rat).Add(a, b), true
+		case token.SUB:
+			return new(big.Rat).Sub(a, b), true
+		case token.MUL:
+			return new(big.Rat).Mul(a, b), true
+		case token.QUO:
+			if b.Sign() == 0 {
+				return nil, false
+			}
+			return new(big.Rat).Quo(a, b), true
+		}
+	case *ast.Ident:
+		if c, ok := x.pkg.TypesInfo.ObjectOf(e).(*types.Const); ok {
+			if bt, ok := c.Type().Underlying().(*types.Basic); ok && bt.Info()&types.IsUntyped != 0 {
+				r, ok := new(big.Rat).SetString(c.Val().ExactString())
+				return r, ok
+			}
+		}
+	case *ast.SelectorExpr:
+		if c, ok := x.pkg.TypesInfo.ObjectOf(e.Sel).(*types.Const); ok {
+			if bt, ok := c.Type().Underlying().(*types.Basic); ok && bt.Info()&types.IsUntyped != 0 {
+				r, ok := new(big.Rat).SetString(c.Val().ExactString())
+				return r, ok
+			}
+		}
+	case *ast.CallExpr:
+		// float64(<const>)
+		if tv, ok := x.pkg.TypesInfo.Types[e.Fun]; ok && tv.IsType() && len(e.Args) == 1 {
+			return x.exactConst(e.Args[0])
+		}
+	}
+	return nil, false
 }
